@@ -249,14 +249,17 @@ static unsigned long parse_word(const char *w)
 	if (w[0] == '@') {
 		if (!strcmp(w, "@BAD"))
 			return (unsigned long)bad_page + 16;
-		if (!strcmp(w, "@EDGE")) /* C09: first byte of a PROT_NONE page right behind a readable mapping */
-			return edge_addr;
+		if (!strncmp(w, "@EDGE", 5)) /* C09: first byte of a PROT_NONE page right behind a readable page of 4095 'E's
+					      * and a NUL; "@EDGE-<k>": k bytes in front of it */
+			return edge_addr - (w[5] == '-' ? strtoul(w + 6, NULL, 0) : 0);
 		if (!strcmp(w, "@BRK")) /* C09: an unmapped address shortly behind the end of the heap */
 			return brk_gap;
 		if (!strcmp(w, "@STK")) /* C09: an unmapped address shortly below the mapped stack */
 			return stack_low_unmapped();
-		if (w[1] == 'S')
-			return (unsigned long)strings[atoi(w + 2)];
+		if (w[1] == 'S') { /* "@S<i>" or (C09) "@S<i>+<offset>" */
+			const char *plus = strchr(w, '+');
+			return (unsigned long)strings[atoi(w + 2)] + (plus ? strtoul(plus + 1, NULL, 0) : 0);
+		}
 		if (w[1] == 'F') /* C09: start address of f<k> */
 			return (unsigned long)funcs[atoi(w + 2) % NFUNC];
 	}
@@ -694,7 +697,8 @@ int main(void)
 	brk_gap = (unsigned long)sbrk(0) + (8UL << 20) + 24;
 	{
 		char *two = mmap(NULL, 8192, PROT_READ | PROT_WRITE, MAP_PRIVATE | MAP_ANONYMOUS, -1, 0);
-		memset(two, 'E', 4096);
+		memset(two, 'E', 4095);
+		two[4095] = 0;
 		mprotect(two + 4096, 4096, PROT_NONE);
 		edge_addr = (unsigned long)two + 4096;
 	}
